@@ -526,8 +526,13 @@ class BehavioralRTLIRToVVisitorL1( bir.BehavioralRTLIRNodeVisitor ):
         #   nbits = node.Type.get_dtype().get_length()
         #   return f"{nbits}'({value}[{idx}])"
 
+        # The pending indices (e.g. of the component array this port array
+        # belongs to) come before ALL indices of the port array itself:
+        # s.c[i].out[1][2] is c__out[i][1][2]
+        p = value.find('[')
+        base, done = ( value, '' ) if p < 0 else ( value[:p], value[p:] )
         return s.process_unpacked_q( node,
-            f'{value}[{idx}]', f'{value}{{}}[{idx}]' )
+            f'{value}[{idx}]', f'{base}{{}}{done}[{idx}]' )
       else:
         # is this branch ever taken?
         assert False
